@@ -13,6 +13,7 @@ SAVE=$(mktemp -d /tmp/seeded-evidence.XXXXXX); cp evidence/*.json $SAVE/
 for d in seeded/$GLOB/; do
   name=$(basename $d); prop=${name%%-*}; prop=${prop%[bcd]}
   [ -f $d/patch.diff ] || continue
+  if [ -f $d/OBSOLETE ]; then echo "$name - obsolete (no longer breaks the property on the repaired tree, see $d/OBSOLETE)"; continue; fi
   if ! git -C /repo apply /verif/$d/patch.diff 2>/dev/null; then echo "$name - exit=NOAPPLY"; continue; fi
   if [ "$MODE" = all ]; then checks=$(seq -f "C%02g" 1 20); else checks=$prop; fi
   for c in $checks; do
